@@ -46,7 +46,7 @@ def world_dir(world, tag=""):
     root = os.environ.get("NESSAI_SIM_ROOT") or os.path.join(env.scratch_root(), f"nessai-sim-{os.getpid()}")
     os.makedirs(root, exist_ok=True)
     name = hashlib.sha1((json.dumps(world, sort_keys=True, default=repr) + tag).encode()).hexdigest()[:16]
-    return os.path.join(root, f"w{name}")
+    return os.path.join(root, f"w{name}-{os.getpid()}")
 
 
 def run_incarnation(world, inc, lab, disk, t0):
